@@ -39,7 +39,12 @@ def post_matrix_transform(ctx, call):
         except ValueError:
             return
         for pos in R.positions(tuple(cshape), 8):
-            mm = m[tuple(pos[len(cshape) - (m.ndim - 2):])] if m.ndim > 2 else m
+            if m.ndim > 2:
+                bs = m.shape[:-2]
+                pp = pos[len(cshape) - len(bs):]
+                mm = m[tuple(0 if bs[j] == 1 else pp[j] for j in range(len(bs)))]
+            else:
+                mm = m
             x = R.element_array(self, pos, cshape)
             want = mm.astype(complex) @ x.astype(complex)
             got = np.asarray(res.array[pos] if cshape else res.array)
